@@ -1,1 +1,591 @@
-/- property theorems for C14 (filled in below) -/
+/-
+C14 — circle and sphere parameters describe the true geodesic, segment and horosphere.
+Only property theorems and non-vacuity examples live here; helper lemmas are in
+`GT.Lemmas.Circle`.  Model: `GT.Model.Circle`.
+
+`Subspace.sphere_parameters` is modelled as repaired (D10): the Klein point from which the
+Poincaré sphere is built is the foot of the perpendicular from the origin to the affine hull of
+the ideal basis, the half-space centre is the circumcentre of the ideal basis; both come out
+of `np.linalg.pinv`, which enters as a contract (`IsFoot`, `IsCircumcentre`).  The pinned tree
+used the centroid in both places: right for two ideal points (`sphere_parameters_partial`),
+wrong from three on (`sphere_k3_counterexample`, `halfspace_k3_counterexample`).
+-/
+import GT.Lemmas.Circle
+import GT.Properties.C01
+import Mathlib.Tactic.NormNum
+import Mathlib.Tactic.FinCases
+
+open Finset BigOperators
+
+set_option linter.unusedSectionVars false
+
+namespace GT.C14
+open GT GT.Targets GT.Circle
+
+section generic
+variable {K : Type*} [Field K] [LinearOrder K] [IsStrictOrderedRing K] {n : ℕ} {r : K → K}
+
+/-! ## ideal endpoints of a segment -/
+
+/-- both rows of `Segment._compute_aux_data` are lightlike (when the leading coefficient is
+non-zero and the supplied root squares to the discriminant) -/
+theorem segmentIdeal_null (x₁ x₂ : Fin (n + 1) → K) (ha : segA x₁ x₂ ≠ 0)
+    (hd : r (segDisc x₁ x₂) * r (segDisc x₁ x₂) = segDisc x₁ x₂) :
+    mink (segmentIdeal r x₁ x₂).1 (segmentIdeal r x₁ x₂).1 = 0 ∧
+    mink (segmentIdeal r x₁ x₂).2 (segmentIdeal r x₁ x₂).2 = 0 := by
+  have key : ∀ sgn : K, sgn * sgn = 1 →
+      mink (segNull (segMu r sgn x₁ x₂) x₁ x₂) (segNull (segMu r sgn x₁ x₂) x₁ x₂) = 0 := by
+    intro sgn hs
+    rw [mink_segNull]
+    have hmu : 2 * segA x₁ x₂ * segMu r sgn x₁ x₂
+        = -segB x₁ x₂ + sgn * r (segDisc x₁ x₂) := by
+      unfold segMu; field_simp
+    have hd' : r (segDisc x₁ x₂) * r (segDisc x₁ x₂)
+        = segB x₁ x₂ * segB x₁ x₂ - 4 * segA x₁ x₂ * segC x₁ x₂ := by rw [hd]; rfl
+    generalize r (segDisc x₁ x₂) = R at hd' hmu
+    generalize segMu r sgn x₁ x₂ = mu at hmu ⊢
+    have h4 : 4 * segA x₁ x₂ * (segA x₁ x₂ * mu ^ 2 + segB x₁ x₂ * mu + segC x₁ x₂) = 0 := by
+      linear_combination (2 * segA x₁ x₂ * mu + (-segB x₁ x₂ + sgn * R) + 2 * segB x₁ x₂) * hmu
+        + sgn * sgn * hd' + (segB x₁ x₂ * segB x₁ x₂ - 4 * segA x₁ x₂ * segC x₁ x₂) * hs
+    rcases mul_eq_zero.1 h4 with h | h
+    · exfalso; apply ha; linarith
+    · exact h
+  exact ⟨key 1 (by ring), key (-1) (by ring)⟩
+
+/-- for interior endpoints the discriminant is non-negative (reverse Cauchy–Schwarz), so the
+real square root the code takes exists -/
+theorem segDisc_nonneg (x₁ x₂ : Fin (n + 1) → K) (h₁ : mink x₁ x₁ < 0) (h₂ : mink x₂ x₂ < 0) :
+    0 ≤ segDisc x₁ x₂ := by
+  rw [segDisc_eq]; have := reverse_cs x₁ x₂ h₁ h₂; linarith
+
+/-- for representatives with equal time coordinate (both built from Klein/Poincaré/half-space
+coordinates) and distinct points the leading coefficient is positive -/
+theorem segA_pos (x₁ x₂ : Fin (n + 1) → K) (h0 : x₁ 0 = x₂ 0) (hne : x₁ ≠ x₂) :
+    0 < segA x₁ x₂ := by
+  rw [segA_eq]
+  have : mink (fun i => x₁ i - x₂ i) (fun i => x₁ i - x₂ i)
+      = nsq (Fin.tail fun i => x₁ i - x₂ i) := by
+    unfold mink nsq; simp [h0]
+  rw [this]
+  rcases (nsq_nonneg (Fin.tail fun i => x₁ i - x₂ i)).lt_or_eq with h | h
+  · exact h
+  · exfalso; apply hne
+    have hz : ∀ i, Fin.tail (fun i => x₁ i - x₂ i) i = 0 := by
+      intro i
+      by_contra hi
+      have hpos : 0 < nsq (Fin.tail fun i => x₁ i - x₂ i) := by
+        unfold nsq dot
+        apply Finset.sum_pos'
+        · intro j _; exact mul_self_nonneg _
+        · exact ⟨i, Finset.mem_univ i, mul_self_pos.2 hi⟩
+      linarith
+    funext i
+    refine Fin.cases ?_ (fun j => ?_) i
+    · exact h0
+    · have := hz j; simp only [Fin.tail] at this; exact sub_eq_zero.1 this
+
+/-- the ideal endpoints lie on the line through the endpoints: in homogeneous coordinates by
+construction, and in the Klein model as an affine combination of the endpoints' coordinates -/
+theorem segmentIdeal_in_span (mu : K) (x₁ x₂ : Fin (n + 1) → K)
+    (h : mu * x₁ 0 + (1 - mu) * x₂ 0 ≠ 0) (h₁ : x₁ 0 ≠ 0) (h₂ : x₂ 0 ≠ 0) :
+    let t := mu * x₁ 0 / (mu * x₁ 0 + (1 - mu) * x₂ 0)
+    klein (segNull mu x₁ x₂) = fun i => t * klein x₁ i + (1 - t) * klein x₂ i := by
+  intro t
+  funext i
+  simp only [klein, segNull, t]
+  field_simp
+  ring
+
+/-! ## Poincaré model: the sphere of a totally geodesic subspace -/
+
+/-- the sphere built from a Klein point `m` of the closed ball (`m ≠ 0`) has centre `m/|m|²`
+and meets the unit sphere at right angles: `|c|² = 1 + ρ²` -/
+theorem poincareSphere_orth (hr : IsSqrt r) (m : Fin n → K) (h0 : 0 < nsq m) (h1 : nsq m ≤ 1) :
+    (poincareSphere r m).1 = (fun i => m i / nsq m) ∧
+    nsq (poincareSphere r m).1 = 1 + (poincareSphere r m).2 ^ 2 := by
+  obtain ⟨hc, hrad, _⟩ := poincareSphere_closed hr m h0 h1
+  refine ⟨hc, ?_⟩
+  have hr2 : (poincareSphere r m).2 ^ 2 = (1 - nsq m) / nsq m := by rw [pow_two]; exact hrad
+  rw [hr2, hc, nsq_div]
+  have hm0 : nsq m ≠ 0 := h0.ne'
+  field_simp
+  ring
+
+/-- every point `x` of the closed Klein ball on the hyperplane `x·m = |m|²` (the affine hull
+of the ideal basis lies in it) goes, under Klein → Poincaré, onto the reported sphere; for
+`|x| = 1` the point is an ideal point and is its own image -/
+theorem poincareSphere_chord (hr : IsSqrt r) (m x : Fin n → K) (h0 : 0 < nsq m) (h1 : nsq m ≤ 1)
+    (hx : nsq x ≤ 1) (hxm : dot x m = nsq m) :
+    nsq (fun i => k2p r x i - (poincareSphere r m).1 i) = (poincareSphere r m).2 ^ 2 := by
+  obtain ⟨hc, hrad, _⟩ := poincareSphere_closed hr m h0 h1
+  have hb : 0 ≤ 1 - nsq x := by linarith
+  obtain ⟨hs0, hs1⟩ := hr (1 - nsq x) hb
+  have hp : k2p r x = fun i => x i * (1 / (1 + r (1 - nsq x))) := by
+    funext j; unfold k2p; rw [abs_of_nonneg hb]
+  generalize r (1 - nsq x) = s at hs0 hs1 hp
+  have hne : (1 + s) ≠ 0 := by linarith
+  have hxx : nsq x = 1 - s * s := by rw [hs1]; ring
+  have hr2 : (poincareSphere r m).2 ^ 2 = (1 - nsq m) / nsq m := by rw [pow_two]; exact hrad
+  rw [hr2, nsq_sub, hc, nsq_div, dot_div_right, hp, nsq_smul, dot_smul_left, hxm, hxx]
+  have hm0 : nsq m ≠ 0 := h0.ne'
+  field_simp
+  ring
+
+/-- `Subspace.sphere_parameters(POINCARE)` (repaired): for an ideal basis of any size whose
+affine hull misses the origin, the reported sphere contains every ideal point of the basis
+and is orthogonal to the boundary -/
+theorem sphere_parameters_poincare {k : ℕ} (hr : IsSqrt r) (lam : Fin (k + 1) → K)
+    (ks : Fin (k + 1) → Fin n → K) (hk : ∀ j, nsq (ks j) = 1) (hf : IsFoot lam ks)
+    (h0 : 0 < nsq (affComb lam ks)) :
+    (∀ j, nsq (fun i => ks j i - (poincareSphereFoot r lam ks).1 i)
+        = (poincareSphereFoot r lam ks).2 ^ 2) ∧
+    nsq (poincareSphereFoot r lam ks).1 = 1 + (poincareSphereFoot r lam ks).2 ^ 2 := by
+  set m := affComb lam ks with hm
+  have hdot := fun j => hf.dot_eq j
+  -- |m|² ≤ 1: k₀ = m + (k₀ - m) is an orthogonal decomposition
+  have h1 : nsq m ≤ 1 := by
+    have h := nsq_sub (ks 0) m
+    have hnn := nsq_nonneg (fun i => ks 0 i - m i)
+    rw [hk 0, hdot 0] at h
+    linarith
+  refine ⟨fun j => ?_, (poincareSphere_orth hr m h0 h1).2⟩
+  have hself : k2p r (ks j) = ks j := by
+    funext i; unfold k2p; rw [hk j]; simp [hr.zero]
+  have := poincareSphere_chord hr m (ks j) h0 h1 (by rw [hk j]) (hdot j)
+  rw [hself] at this
+  exact this
+
+/-- for two ideal points the midpoint is the foot: `lamMid` satisfies the `pinv` contract -/
+theorem lamMid_isFoot (ks : Fin 2 → Fin n → K) (hk : nsq (ks 0) = nsq (ks 1)) :
+    IsFoot lamMid ks := by
+  refine ⟨by simp [lamMid], fun j => ?_⟩
+  rw [affComb_lamMid]
+  have e : (fun i => (ks 0 i + ks 1 i) / 2) = fun i => (1 / 2) * ks 0 i + (1 / 2) * ks 1 i := by
+    funext i; ring
+  rw [e, dot_sub_left, dot_lin_right, dot_lin_right]
+  unfold nsq at hk
+  fin_cases j
+  · simp
+  · simp only [Fin.mk_one, Fin.isValue]
+    rw [dot_comm (ks 1) (ks 0)]; linear_combination (-(1 : K) / 2) * hk
+
+/-- **partial** (pinned-tree construction): the centroid construction of
+`Subspace.sphere_parameters(POINCARE)` is correct for an ideal basis of two points (a geodesic)
+— the sphere passes through both and is orthogonal to the boundary.  What is missing: the
+same statement for three or more ideal points, which is false for the centroid construction
+(`sphere_k3_counterexample`) and is what the repair (`sphere_parameters_poincare`) provides. -/
+theorem sphere_parameters_partial (hr : IsSqrt r) (ks : Fin 2 → Fin n → K)
+    (hk : ∀ j, nsq (ks j) = 1) (h0 : 0 < nsq (centroid ks)) :
+    (∀ j, nsq (fun i => ks j i - (poincareSphereCentroid r ks).1 i)
+        = (poincareSphereCentroid r ks).2 ^ 2) ∧
+    nsq (poincareSphereCentroid r ks).1 = 1 + (poincareSphereCentroid r ks).2 ^ 2 := by
+  have e : centroid ks = affComb lamMid ks := by rw [centroid_two, affComb_lamMid]
+  have := sphere_parameters_poincare hr lamMid ks hk
+    (lamMid_isFoot ks (by rw [hk 0, hk 1])) (by rw [← e]; exact h0)
+  unfold poincareSphereCentroid
+  unfold poincareSphereFoot at this
+  rw [e]; exact this
+
+/-! ## half-space model -/
+
+/-- `Subspace.sphere_parameters(HALFSPACE)` (repaired): the reported sphere contains every
+element of the ideal basis, and its centre lies on the boundary (so it meets the boundary at
+right angles) -/
+theorem sphere_parameters_halfspace {k : ℕ} (hr : IsSqrt r) (lam : Fin (k + 1) → K)
+    (hs : Fin (k + 1) → Fin (n + 1) → K) (hc : IsCircumcentre lam hs)
+    (hb : ∀ j, hs j (Fin.last n) = 0) :
+    (∀ j, nsq (fun i => hs j i - (halfspaceSphere r lam hs).1 i)
+        = (halfspaceSphere r lam hs).2 ^ 2) ∧
+    (halfspaceSphere r lam hs).1 (Fin.last n) = 0 := by
+  obtain ⟨h1, h2⟩ := hc
+  set c := affComb lam hs with hcdef
+  have hrad : (halfspaceSphere r lam hs).2 ^ 2 = nsq (fun i => hs 0 i - c i) := by
+    show (r (nsq (fun i => hs 0 i - c i))) ^ 2 = _
+    rw [pow_two]; exact (hr _ (nsq_nonneg _)).2
+  refine ⟨fun j => ?_, ?_⟩
+  · rw [hrad]
+    show nsq (fun i => hs j i - c i) = _
+    have e : (fun i => hs j i - c i)
+        = fun i => (fun i => hs j i - hs 0 i) i - (fun i => c i - hs 0 i) i := by
+      funext i; ring
+    have e0 : (fun i => hs 0 i - c i) = fun i => (c i - hs 0 i) * (-1) := by funext i; ring
+    rw [e, nsq_sub, e0, nsq_smul]
+    have := h2 j
+    linarith
+  · show c (Fin.last n) = 0
+    simp [hcdef, affComb, hb]
+
+/-- for two ideal points the midpoint is the circumcentre: `lamMid` satisfies the contract -/
+theorem lamMid_isCircumcentre (hs : Fin 2 → Fin n → K) : IsCircumcentre lamMid hs := by
+  refine ⟨by simp [lamMid], fun j => ?_⟩
+  rw [affComb_lamMid]
+  have e : (fun i => (hs 0 i + hs 1 i) / 2 - hs 0 i) = fun i => (hs 1 i - hs 0 i) * (1 / 2) := by
+    funext i; ring
+  rw [e, dot_smul_right]
+  fin_cases j
+  · simp [nsq, dot]
+  · simp only [Fin.mk_one, Fin.isValue]; unfold nsq; ring
+
+/-- vector identity: squared distance to a midpoint -/
+theorem nsq_sub_mid (h a b : Fin n → K) :
+    nsq (fun i => h i - (a i + b i) / 2)
+      = (nsq (fun i => h i - a i) + nsq (fun i => h i - b i)) / 2 - nsq (fun i => a i - b i) / 4 := by
+  have e : (fun i => (a i + b i) / 2) = fun i => (1 / 2) * a i + (1 / 2) * b i := by
+    funext i; ring
+  rw [nsq_sub, nsq_sub, nsq_sub, nsq_sub, e, nsq_lin, dot_lin_right]; ring
+
+/-- **half-space model, through the endpoints**: for two ideal points `k₁`, `k₂` (Klein =
+Poincaré coordinates) the sphere reported by `sphere_parameters(HALFSPACE)` — centre the midpoint
+of their half-space images, radius the distance to the first — passes through the half-space
+image of *every* point `x = t k₁ + (1-t) k₂` of the Klein chord, in particular through both
+endpoints of a segment on that geodesic (Thales: the images see `h₁h₂` under a right angle) -/
+theorem halfspace_chord (hr : IsSqrt r) (k₁ k₂ : Fin (n + 1) → K) (h₁ : nsq k₁ = 1)
+    (h₂ : nsq k₂ = 1) (hp₁ : poleDist k₁ ≠ 0) (hp₂ : poleDist k₂ ≠ 0) (t : K)
+    (hx : nsq (fun i => t * k₁ i + (1 - t) * k₂ i) ≤ 1)
+    (hpx : poleDist (k2p r fun i => t * k₁ i + (1 - t) * k₂ i) ≠ 0) :
+    let hs : Fin 2 → Fin (n + 1) → K := ![p2h k₁, p2h k₂]
+    nsq (fun i => p2h (k2p r fun i => t * k₁ i + (1 - t) * k₂ i) i
+        - (halfspaceSphere r lamMid hs).1 i) = (halfspaceSphere r lamMid hs).2 ^ 2 := by
+  intro hs
+  set x : Fin (n + 1) → K := fun i => t * k₁ i + (1 - t) * k₂ i with hxdef
+  have hb : 0 ≤ 1 - nsq x := by linarith
+  obtain ⟨hs0, hs1⟩ := hr (1 - nsq x) hb
+  have hpdef : k2p r x = fun i => x i * (1 / (1 + r (1 - nsq x))) := by
+    funext j; unfold k2p; rw [abs_of_nonneg hb]
+  generalize r (1 - nsq x) = s at hs0 hs1 hpdef
+  have hne : (1 + s) ≠ 0 := by linarith
+  have hxx : nsq x = 1 - s * s := by rw [hs1]; ring
+  -- centre and radius
+  have hc : (halfspaceSphere r lamMid hs).1 = fun i => (p2h k₁ i + p2h k₂ i) / 2 := by
+    show affComb lamMid hs = _
+    rw [affComb_lamMid]; rfl
+  have hrad : (halfspaceSphere r lamMid hs).2 ^ 2
+      = nsq (fun i => p2h k₁ i - p2h k₂ i) / 4 := by
+    show (r (nsq (fun i => hs 0 i - affComb lamMid hs i))) ^ 2 = _
+    rw [pow_two, (hr _ (nsq_nonneg _)).2, affComb_lamMid]
+    have : (fun i => hs 0 i - (hs 0 i + hs 1 i) / 2)
+        = fun i => (p2h k₁ i - p2h k₂ i) * (1 / 2) := by
+      funext i; show p2h k₁ i - (p2h k₁ i + p2h k₂ i) / 2 = _; ring
+    rw [this, nsq_smul]; ring
+  rw [hc, hrad, nsq_sub_mid, nsq_p2h_sub (k2p r x) k₁ hpx hp₁, nsq_p2h_sub (k2p r x) k₂ hpx hp₂,
+    nsq_p2h_sub k₁ k₂ hp₁ hp₂]
+  -- the three chordal distances and the three pole distances
+  have hxk₁ : dot x k₁ = t + (1 - t) * dot k₁ k₂ := by
+    rw [hxdef, dot_lin_left]; unfold nsq at h₁; rw [h₁, dot_comm k₂ k₁]; ring
+  have hxk₂ : dot x k₂ = t * dot k₁ k₂ + (1 - t) := by
+    rw [hxdef, dot_lin_left]; unfold nsq at h₂; rw [h₂]; ring
+  have hN₁ : nsq (fun i => k2p r x i - k₁ i) * (1 + s) = 2 * (1 - t) * (1 - dot k₁ k₂) := by
+    rw [nsq_sub, hpdef, nsq_smul, dot_smul_left, hxk₁, h₁, hxx]; field_simp; ring
+  have hN₂ : nsq (fun i => k2p r x i - k₂ i) * (1 + s) = 2 * t * (1 - dot k₁ k₂) := by
+    rw [nsq_sub, hpdef, nsq_smul, dot_smul_left, hxk₂, h₂, hxx]; field_simp; ring
+  have hN₁₂ : nsq (fun i => k₁ i - k₂ i) = 2 - 2 * dot k₁ k₂ := by
+    rw [nsq_sub, h₁, h₂]; ring
+  have hD₁ : poleDist k₁ = 2 * (1 - k₁ 0) := by rw [poleDist_eq, h₁]; ring
+  have hD₂ : poleDist k₂ = 2 * (1 - k₂ 0) := by rw [poleDist_eq, h₂]; ring
+  have hDp : poleDist (k2p r x) * (1 + s) = 2 * (1 - t * k₁ 0 - (1 - t) * k₂ 0) := by
+    rw [poleDist_eq, hpdef, nsq_smul, hxx]; simp only [hxdef]; field_simp; ring
+  -- express everything through the products with (1+s)
+  have e₁ : nsq (fun i => k2p r x i - k₁ i) = 2 * (1 - t) * (1 - dot k₁ k₂) / (1 + s) := by
+    rw [← hN₁]; field_simp
+  have e₂ : nsq (fun i => k2p r x i - k₂ i) = 2 * t * (1 - dot k₁ k₂) / (1 + s) := by
+    rw [← hN₂]; field_simp
+  have e₃ : poleDist (k2p r x) = 2 * (1 - t * k₁ 0 - (1 - t) * k₂ 0) / (1 + s) := by
+    rw [← hDp]; field_simp
+  have hq₃ : (1 - t * k₁ 0 - (1 - t) * k₂ 0) ≠ 0 := by
+    intro h0; apply hpx; rw [e₃, h0]; simp
+  have hq₁ : (1 - k₁ 0) ≠ 0 := by
+    intro h0; apply hp₁; rw [hD₁, h0]; ring
+  have hq₂ : (1 - k₂ 0) ≠ 0 := by
+    intro h0; apply hp₂; rw [hD₂, h0]; ring
+  rw [e₁, e₂, e₃, hN₁₂, hD₁, hD₂]
+  field_simp
+  ring
+
+/-! ## horospheres -/
+
+/-- `Horosphere.sphere_parameters(POINCARE)`: the sphere passes through the reference point,
+passes through the ideal centre point and has its centre on the radius to it at distance
+`1 - ρ` from the origin — it is internally tangent to the unit sphere there -/
+theorem horosphere_poincare (ideal ref : Fin n → K) (hi : nsq ideal = 1)
+    (hne : 1 - dot ideal ref ≠ 0) :
+    let c := (horoPoincare ideal ref).1
+    let ρ := (horoPoincare ideal ref).2
+    nsq (fun i => ref i - c i) = ρ ^ 2 ∧ nsq (fun i => ideal i - c i) = ρ ^ 2 ∧
+      c = (fun i => ideal i * (1 - ρ)) ∧ nsq c = (1 - ρ) ^ 2 := by
+  intro c ρ
+  have hc : c = fun i => ideal i * (1 - ρ) := rfl
+  have hρ : ρ = nsq (fun i => ideal i - ref i) / (2 * (1 - dot ideal ref)) := rfl
+  have hsub := nsq_sub ideal ref
+  refine ⟨?_, ?_, hc, ?_⟩
+  · rw [nsq_sub, hc, nsq_smul, dot_smul_right, hi, dot_comm ref ideal]
+    have : nsq ref = 2 * (1 - dot ideal ref) * ρ - 1 + 2 * dot ideal ref := by
+      rw [hρ, hsub, hi]; field_simp; ring
+    rw [this]; ring
+  · rw [nsq_sub, hc, nsq_smul, dot_smul_right]
+    show nsq ideal - 2 * ((1 - ρ) * nsq ideal) + (1 - ρ) ^ 2 * nsq ideal = ρ ^ 2
+    rw [hi]; ring
+  · rw [hc, nsq_smul, hi]; ring
+
+/-- the horosphere's Euclidean radius lies in `(0, 1)` for an interior reference point -/
+theorem horosphere_poincare_radius (ideal ref : Fin n → K) (hi : nsq ideal = 1)
+    (hr : nsq ref < 1) :
+    0 < (horoPoincare ideal ref).2 ∧ (horoPoincare ideal ref).2 < 1 := by
+  have hsub := nsq_sub ideal ref
+  have hnn := nsq_nonneg (fun i => ideal i - ref i)
+  have hr0 := nsq_nonneg ref
+  -- |ideal·ref| < 1 by Cauchy–Schwarz in the form |ideal - ref|² > 0 and |ideal + ref|² ≥ 0
+  have hpos : 0 < 1 - dot ideal ref := by
+    have h2 : 0 ≤ nsq (fun i => ideal i - ref i) := hnn
+    rw [hsub, hi] at h2
+    nlinarith
+  have hcs : dot ideal ref ^ 2 ≤ nsq ref := by
+    have h := nsq_nonneg (fun i => ref i - ideal i * dot ideal ref)
+    have e := nsq_sub ref (fun i => ideal i * dot ideal ref)
+    rw [nsq_smul, dot_smul_right, hi, dot_comm ref ideal] at e
+    rw [e] at h; nlinarith
+  have hd : 0 < nsq (fun i => ideal i - ref i) := by
+    rw [hsub, hi]
+    have h3 : (1 - dot ideal ref) ^ 2 ≤ 1 - 2 * dot ideal ref + nsq ref := by nlinarith
+    have h4 : 0 < (1 - dot ideal ref) ^ 2 := by positivity
+    linarith
+  show 0 < nsq (fun i => ideal i - ref i) / (2 * (1 - dot ideal ref)) ∧
+    nsq (fun i => ideal i - ref i) / (2 * (1 - dot ideal ref)) < 1
+  refine ⟨by positivity, ?_⟩
+  rw [div_lt_one (by positivity), hsub, hi]; linarith
+
+/-- `Horosphere.sphere_parameters(HALFSPACE)`: the sphere passes through the reference point
+and touches the boundary at the ideal centre point (centre straight above it at height `ρ`) -/
+theorem horosphere_halfspace (ideal ref : Fin (n + 1) → K) (hz : ref (Fin.last n) ≠ 0)
+    (hi : ideal (Fin.last n) = 0) :
+    let c := (horoHalfspace ideal ref).1
+    let ρ := (horoHalfspace ideal ref).2
+    nsq (fun i => ref i - c i) = ρ ^ 2 ∧ nsq (fun i => ideal i - c i) = ρ ^ 2 ∧
+      Fin.init c = Fin.init ideal ∧ c (Fin.last n) = ρ := by
+  intro c ρ
+  have split : ∀ v : Fin (n + 1) → K, nsq v = nsq (Fin.init v) + v (Fin.last n) ^ 2 := by
+    intro v; unfold nsq dot; rw [Fin.sum_univ_castSucc]; simp [Fin.init, pow_two]
+  have hcl : c (Fin.last n) = ρ := by
+    show (Fin.snoc (Fin.init ideal) ρ : Fin (n + 1) → K) (Fin.last n) = ρ
+    simp
+  have hci : Fin.init c = Fin.init ideal := by
+    show Fin.init (Fin.snoc (Fin.init ideal) ρ : Fin (n + 1) → K) = _
+    simp
+  have hρ : ρ = (1 / 2) * (nsq (fun i => Fin.init ideal i - Fin.init ref i)
+      / ref (Fin.last n) + ref (Fin.last n)) := rfl
+  have hci' : ∀ i : Fin n, c i.castSucc = ideal i.castSucc := fun i => congrFun hci i
+  refine ⟨?_, ?_, hci, hcl⟩
+  · rw [split]
+    have e1 : Fin.init (fun i => ref i - c i) = fun i => Fin.init ref i - Fin.init ideal i := by
+      funext i; simp only [Fin.init]; rw [hci' i]
+    have e2 : (fun i => Fin.init ref i - Fin.init ideal i)
+        = fun i => (Fin.init ideal i - Fin.init ref i) * (-1) := by funext i; ring
+    rw [e1, e2, nsq_smul, hcl, hρ]
+    field_simp; ring
+  · rw [split]
+    have e1 : Fin.init (fun i => ideal i - c i) = fun _ => 0 := by
+      funext i; simp only [Fin.init]
+      rw [hci' i]; ring
+    rw [e1, hcl, hi]; simp [nsq, dot]
+
+/-! ## arc selection (dimension 2)
+
+`circle_angles` takes `arctan2` of the direction from the centre to a point; `short_arc`,
+`right_to_left` and `arc_include` are modelled as sign tests on those directions
+(`GT.Model.Circle`).  "The counter-clockwise arc from `a` to `b`" is, for `cross2 a b > 0`
+(extent `< π`), the set of directions `w` with `cross2 a w ≥ 0` and `cross2 w b ≥ 0`. -/
+
+/-- `short_arc` returns the two directions in an order whose counter-clockwise arc is the
+minor one: the pair is a permutation of the input and `sin(θ₁ - θ₀) ≥ 0` -/
+theorem shortArc_spec (u v : K × K) :
+    (shortArc u v = (u, v) ∨ shortArc u v = (v, u)) ∧
+      0 ≤ cross2 (shortArc u v).1 (shortArc u v).2 := by
+  have hanti : ∀ a b : K × K, cross2 b a = -cross2 a b := by intro a b; unfold cross2; ring
+  unfold shortArc
+  dsimp only
+  split_ifs with h1 h2 h2
+  · exact ⟨Or.inl rfl, by show 0 ≤ cross2 u v; rw [hanti]; linarith⟩
+  · exact ⟨Or.inr rfl, not_lt.1 h2⟩
+  · exact ⟨Or.inr rfl, by show 0 ≤ cross2 v u; rw [hanti]; linarith⟩
+  · exact ⟨Or.inl rfl, not_lt.1 h2⟩
+
+/-- `right_to_left` returns the pair ordered by decreasing cosine -/
+theorem rightToLeft_spec (u v : K × K) :
+    (rightToLeft u v = (u, v) ∨ rightToLeft u v = (v, u)) ∧
+      (rightToLeft u v).2.1 ≤ (rightToLeft u v).1.1 := by
+  unfold rightToLeft
+  split_ifs with h
+  · exact ⟨Or.inr rfl, h.le⟩
+  · exact ⟨Or.inl rfl, not_lt.1 h⟩
+
+/-- a point `c + w` of the circle of radius `ρ` about `c`, `|c|² = 1 + ρ²`, lies in the closed
+unit disk iff `w·c ≤ -ρ²` -/
+theorem inside_iff (c w : K × K) (ρ : K) (hc : dot2 c c = 1 + ρ ^ 2) (hw : dot2 w w = ρ ^ 2) :
+    dot2 (c.1 + w.1, c.2 + w.2) (c.1 + w.1, c.2 + w.2) ≤ 1 ↔ dot2 w c ≤ -ρ ^ 2 := by
+  unfold dot2 at *
+  constructor <;> intro h <;> nlinarith
+
+/-- **the arc inside the disk**: on a circle orthogonal to the unit circle, if the two ends
+`a`, `b` of a counter-clockwise arc of extent `< π` (`cross2 a b > 0`, which is what
+`short_arc` arranges) are inside the closed disk, every point of the arc is inside.  In
+particular the inside part of the circle is the minor arc between its two ideal points. -/
+theorem arc_between_inside (c a b w : K × K) (ρ : K) (hρ : 0 < ρ)
+    (ha : dot2 a a = ρ ^ 2) (hb : dot2 b b = ρ ^ 2) (hw : dot2 w w = ρ ^ 2)
+    (hab : 0 < cross2 a b) (haw : 0 ≤ cross2 a w) (hwb : 0 ≤ cross2 w b)
+    (hain : dot2 a c ≤ -ρ ^ 2) (hbin : dot2 b c ≤ -ρ ^ 2) : dot2 w c ≤ -ρ ^ 2 := by
+  -- w = λ a + μ b with λ = cross(w,b)/cross(a,b), μ = cross(a,w)/cross(a,b)
+  have hdec1 : cross2 a b * w.1 = cross2 w b * a.1 + cross2 a w * b.1 := by unfold cross2; ring
+  have hdec2 : cross2 a b * w.2 = cross2 w b * a.2 + cross2 a w * b.2 := by unfold cross2; ring
+  have hwc : cross2 a b * dot2 w c = cross2 w b * dot2 a c + cross2 a w * dot2 b c := by
+    unfold dot2; linear_combination c.1 * hdec1 + c.2 * hdec2
+  -- |w|² cross(a,b)² = |λ' a + μ' b|², and a·b ≤ ρ²
+  have hab_le : dot2 a b ≤ ρ ^ 2 := by
+    have : 0 ≤ (a.1 - b.1) ^ 2 + (a.2 - b.2) ^ 2 := by positivity
+    unfold dot2 at *; nlinarith
+  have hnorm : cross2 a b ^ 2 * ρ ^ 2
+      = cross2 w b ^ 2 * ρ ^ 2 + cross2 a w ^ 2 * ρ ^ 2
+        + 2 * cross2 w b * cross2 a w * dot2 a b := by
+    have : cross2 a b ^ 2 * dot2 w w
+        = (cross2 w b * a.1 + cross2 a w * b.1) ^ 2 + (cross2 w b * a.2 + cross2 a w * b.2) ^ 2 := by
+      rw [← hdec1, ← hdec2]; unfold dot2; ring
+    rw [hw] at this
+    rw [this]; unfold dot2 at ha hb ⊢
+    linear_combination (cross2 w b ^ 2) * ha + (cross2 a w ^ 2) * hb
+  have hsum : cross2 a b ≤ cross2 w b + cross2 a w := by
+    have hρ2 : 0 < ρ ^ 2 := by positivity
+    have h1 : cross2 a b ^ 2 * ρ ^ 2 ≤ (cross2 w b + cross2 a w) ^ 2 * ρ ^ 2 := by
+      rw [hnorm]
+      have : 0 ≤ cross2 w b * cross2 a w := mul_nonneg hwb haw
+      nlinarith
+    have h2 : cross2 a b ^ 2 ≤ (cross2 w b + cross2 a w) ^ 2 := le_of_mul_le_mul_right h1 hρ2
+    exact abs_le_of_sq_le_sq' h2 (by linarith) |>.2
+  have : cross2 a b * dot2 w c ≤ cross2 a b * (-ρ ^ 2) := by
+    rw [hwc]
+    have h1 : cross2 w b * dot2 a c ≤ cross2 w b * (-ρ ^ 2) := mul_le_mul_of_nonneg_left hain hwb
+    have h2 : cross2 a w * dot2 b c ≤ cross2 a w * (-ρ ^ 2) := mul_le_mul_of_nonneg_left hbin haw
+    have hρ2 : 0 < ρ ^ 2 := by positivity
+    nlinarith
+  exact le_of_mul_le_mul_left this hab
+
+/-- the half-plane analogue: between two directions of the closed upper half-plane (centre on
+the boundary) every direction of the counter-clockwise arc points into the closed upper
+half-plane -/
+theorem arc_between_upper (a b w : K × K) (hab : 0 < cross2 a b) (haw : 0 ≤ cross2 a w)
+    (hwb : 0 ≤ cross2 w b) (ha : 0 ≤ a.2) (hb : 0 ≤ b.2) : 0 ≤ w.2 := by
+  have hdec2 : cross2 a b * w.2 = cross2 w b * a.2 + cross2 a w * b.2 := by unfold cross2; ring
+  have : 0 ≤ cross2 a b * w.2 := by
+    rw [hdec2]; exact add_nonneg (mul_nonneg hwb ha) (mul_nonneg haw hb)
+  exact nonneg_of_mul_nonneg_right this hab
+
+/-- `right_to_left` on two directions of equal length in the closed upper half-plane orders
+them counter-clockwise (`cross ≥ 0`): right to left along the upper semicircle -/
+theorem rightToLeft_ccw (u v : K × K) (hl : dot2 u u = dot2 v v) (hu : 0 ≤ u.2) (hv : 0 ≤ v.2) :
+    0 ≤ cross2 (rightToLeft u v).1 (rightToLeft u v).2 := by
+  have key : ∀ a b : K × K, dot2 a a = dot2 b b → 0 ≤ a.2 → 0 ≤ b.2 → b.1 ≤ a.1 →
+      0 ≤ cross2 a b := by
+    intro a b hl ha hb h
+    unfold cross2; unfold dot2 at hl
+    rcases le_total 0 b.1 with hb1 | hb1
+    · -- 0 ≤ b₁ ≤ a₁: a₂ ≤ b₂
+      have : a.2 ≤ b.2 := by
+        by_contra hc; rw [not_le] at hc; nlinarith
+      nlinarith
+    · rcases le_total 0 a.1 with ha1 | ha1
+      · nlinarith [mul_nonneg ha1 hb, mul_nonneg ha (neg_nonneg.2 hb1)]
+      · -- b₁ ≤ a₁ ≤ 0: b₂ ≤ a₂
+        have : b.2 ≤ a.2 := by
+          by_contra hc; rw [not_le] at hc; nlinarith
+        nlinarith
+  unfold rightToLeft
+  split_ifs with h
+  · exact key v u hl.symm hv hu h.le
+  · exact key u v hl hu hv (not_lt.1 h)
+
+/-- the flipped `arc_include` of `HorosphereArc.circle_parameters` returns a permutation of
+the two directions -/
+theorem horoArc_perm (u v ref : K × K) :
+    horoArc u v ref = (u, v) ∨ horoArc u v ref = (v, u) := by
+  unfold horoArc arcInclude
+  dsimp only
+  split_ifs with h
+  · exact Or.inl rfl
+  · exact Or.inr rfl
+
+/-- every point of the reported circle is the Poincaré image of a point of the Klein
+hyperplane `x·m = |m|²` that contains the geodesic: a point `u` with `|u - c|² = ρ²`, where
+`c = m/|m|²` and `ρ² = |c|² - 1`, satisfies `p2k(u)·m = |m|²` — together with
+`arc_between_inside` the arc the angles bound lies on the hyperbolic geodesic -/
+theorem circle_point_on_geodesic (m u : Fin n → K) (h0 : 0 < nsq m)
+    (hu : nsq (fun i => u i - m i / nsq m) = nsq (fun i => m i / nsq m) - 1) :
+    dot (p2k u) m = nsq m := by
+  have hm0 : nsq m ≠ 0 := h0.ne'
+  have hu0 := nsq_nonneg u
+  have h1 : (1 + nsq u) ≠ 0 := by linarith
+  rw [nsq_sub, dot_div_right] at hu
+  have huc : dot u m = nsq m * (1 + nsq u) / 2 := by
+    field_simp at hu ⊢; linarith
+  unfold p2k
+  rw [dot_smul_left, huc]; field_simp
+
+end generic
+
+/-! ## the pinned tree's centroid construction is wrong from three ideal points on -/
+
+section negative
+
+/-- **negative**: for the three ideal points `(1,0,0)`, `(0,1,0)`, `(0,3/5,4/5)` of `∂H³` the
+centroid construction of the pinned `Subspace.sphere_parameters(POINCARE)` gives a sphere
+that does not pass through the first of them (with the true real square root).  This is the
+witness of defect D10; the repaired construction is `sphere_parameters_poincare`. -/
+theorem sphere_k3_counterexample :
+    ∃ ks : Fin 3 → Fin 3 → ℝ, (∀ j, nsq (ks j) = 1) ∧
+      nsq (fun i => ks 0 i - (poincareSphereCentroid Real.sqrt ks).1 i)
+        ≠ (poincareSphereCentroid Real.sqrt ks).2 ^ 2 := by
+  refine ⟨![![1, 0, 0], ![0, 1, 0], ![0, 3 / 5, 4 / 5]], ?_, ?_⟩
+  · intro j; fin_cases j <;> simp [nsq, dot, Fin.sum_univ_succ] <;> norm_num
+  · set ks : Fin 3 → Fin 3 → ℝ := ![![1, 0, 0], ![0, 1, 0], ![0, 3 / 5, 4 / 5]] with hks
+    have hm : centroid ks = ![1 / 3, 8 / 15, 4 / 15] := by
+      funext i; fin_cases i <;> simp [Circle.centroid, hks, Fin.sum_univ_succ] <;> norm_num
+    have hn : nsq (centroid ks) = 7 / 15 := by
+      rw [hm]; simp [nsq, dot, Fin.sum_univ_succ]; norm_num
+    obtain ⟨hc, hrad, _⟩ := poincareSphere_closed C01.isSqrt_real (centroid ks)
+      (by rw [hn]; norm_num) (by rw [hn]; norm_num)
+    unfold poincareSphereCentroid
+    rw [pow_two, hrad, hc, hn, hm]
+    simp [nsq, dot, Fin.sum_univ_succ, hks]
+    norm_num
+
+/-- **negative**: in the half-space model the pinned tree took the centroid of the ideal
+basis as centre and the distance to the *first* basis element as radius; for the boundary
+points `(0,0)`, `(1,0)`, `(0,2)` of `∂H³` the sphere misses the second one -/
+theorem halfspace_k3_counterexample :
+    ∃ hs : Fin 3 → Fin 3 → ℝ, (∀ j, hs j 2 = 0) ∧
+      nsq (fun i => hs 1 i - (halfspaceSphereCentroid Real.sqrt hs).1 i)
+        ≠ (halfspaceSphereCentroid Real.sqrt hs).2 ^ 2 := by
+  refine ⟨![![0, 0, 0], ![1, 0, 0], ![0, 2, 0]], ?_, ?_⟩
+  · intro j; fin_cases j <;> simp
+  · set hs : Fin 3 → Fin 3 → ℝ := ![![0, 0, 0], ![1, 0, 0], ![0, 2, 0]] with hhs
+    have hm : centroid hs = ![1 / 3, 2 / 3, 0] := by
+      funext i; fin_cases i <;> simp [Circle.centroid, hhs, Fin.sum_univ_succ] <;> norm_num
+    show nsq (fun i => hs 1 i - centroid hs i)
+      ≠ (Real.sqrt (nsq (fun i => hs 0 i - centroid hs i))) ^ 2
+    rw [Real.sq_sqrt (nsq_nonneg _), hm]
+    simp [nsq, dot, Fin.sum_univ_succ, hhs]
+    norm_num
+
+end negative
+
+/-! ## non-vacuity -/
+
+/-- the foot contract is satisfiable by a non-trivial basis of three ideal points of `∂H³`
+(the symmetric one, where the foot is the centroid) -/
+example : IsFoot (fun _ => (1 : ℚ) / 3) (![![1, 0, 0], ![0, 1, 0], ![0, 0, 1]] : Fin 3 → Fin 3 → ℚ) := by
+  refine ⟨by norm_num [Fin.sum_univ_succ], fun j => ?_⟩
+  fin_cases j <;> simp [dot, affComb, Fin.sum_univ_succ]
+
+/-- an instance of the hypotheses of `segmentIdeal_null`: endpoints `(1,0,0)`, `(5/4,3/4,0)`
+with `a = 1/2 ≠ 0` and discriminant `9/4 = (3/2)²` -/
+example : segA (![1, 0, 0] : Fin 3 → ℚ) ![5 / 4, 3 / 4, 0] ≠ 0 ∧
+    segDisc (![1, 0, 0] : Fin 3 → ℚ) ![5 / 4, 3 / 4, 0] = (3 / 2) * (3 / 2) := by
+  constructor <;> simp [segA, segDisc, segB, segC, mink, dot, Fin.sum_univ_succ, Fin.tail] <;> norm_num
+
+end GT.C14
